@@ -12,7 +12,7 @@ from vlib.common import Outcome, Violation
 PROPERTY = "C17"
 RULE = ("histories of up to 12 operations {create, validate, rename, unlink, foreign overwrite (live pid / dead pid / EPERM pid / "
         "garbage / empty / own pid), owner death, revive} by 3 instances (own fake pid each) on 2 paths, executed by the real Pidfile "
-        "class on a scratch directory with gunicorn.pidfile.os/tempfile proxied (per-instance getpid, model-driven kill(pid,0)); after "
+        "class on a scratch directory with gunicorn.pidfile.os/tempfile/open proxied (per-instance getpid, model-driven kill(pid,0)); after "
         "every step the directory is compared with a path->content model (create refuses iff the file names another live pid and leaves "
         "it untouched, unlink/rename remove only a file holding the caller's pid, no temp files left). Plus, exhaustively, a crash "
         "(before / after / half-way through) every proxied system call of create and rename in 5 starting states: afterwards the path is "
@@ -60,7 +60,65 @@ class TempProxy(object):
         return self._w.syscall("mkstemp", tempfile.mkstemp, a, kw)
 
 
+class FileProxy(object):
+    """what the builtin open() gives gunicorn.pidfile for a write mode: the open (with its truncation) is one system call, the data
+    sit in a user-space buffer until flush()/close(), which is one write() and one close() system call"""
+
+    def __init__(self, world, path, mode, encoding=None):
+        flags = os.O_WRONLY | os.O_CREAT
+        if "a" in mode:
+            flags |= os.O_APPEND
+        elif "x" in mode:
+            flags |= os.O_EXCL
+        elif "+" not in mode or "w" in mode:
+            flags |= os.O_TRUNC
+        if "+" in mode:
+            flags = (flags & ~os.O_WRONLY) | os.O_RDWR
+        self._w = world
+        self._binary = "b" in mode
+        self._enc = encoding or "utf-8"
+        self._buf = b""
+        self.closed = False
+        self._fd = world.syscall("open", os.open, (path, flags, 0o666), {})
+
+    def write(self, data):
+        self._buf += data if self._binary else data.encode(self._enc)
+        return len(data)
+
+    def flush(self):
+        if self._buf:
+            data, self._buf = self._buf, b""
+            self._w.syscall("write", os.write, (self._fd, data), {})
+
+    def fileno(self):
+        return self._fd
+
+    def close(self):
+        if not self.closed:
+            self.closed = True
+            try:
+                self.flush()
+            finally:
+                self._w.syscall("close", os.close, (self._fd,), {})
+
+    def __enter__(self):
+        return self
+
+    def __exit__(self, et, ev, tb):
+        if et is not None and issubclass(et, Crash):
+            self.closed = True
+            os.close(self._fd)       # the process is gone: nothing more reaches the disk
+            return False
+        self.close()
+        return False
+
+
 class World(object):
+    def open_file(self, path, mode="r", *a, **kw):
+        if not any(c in mode for c in "wax+"):
+            return open(path, mode, *a, **kw)
+        return FileProxy(self, path, mode, kw.get("encoding"))
+
     def __init__(self, d):
         self.dir = d
         self.cur_pid = None
@@ -282,12 +340,14 @@ def run_case(case):
     world.alive = set(PIDS) | {FOREIGN_LIVE}
     old_os, old_tmp = pf.os, pf.tempfile
     pf.os, pf.tempfile = OsProxy(world), TempProxy(world)
+    pf.open = world.open_file          # the builtin, as seen from gunicorn.pidfile
     try:
         if case["kind"] == "crash":
             return run_crash(case, pf, world, d)
         return run_history(case, pf, world, d)
     finally:
         pf.os, pf.tempfile = old_os, old_tmp
+        pf.__dict__.pop("open", None)
         shutil.rmtree(d, True)
 
 
